@@ -145,7 +145,7 @@ def binflex_helper(self, case_left, case_right, new_mappings, base_mappings, use
     requires(is_list(case_left) and is_list(case_right) and is_list(new_mappings) and is_list(base_mappings))
     requires(distinct(case_left, new_mappings) and distinct(case_right, new_mappings) and distinct(base_mappings, new_mappings))
     requires(nitems(base_mappings) >= 1 and instance_of(item(base_mappings, 0), AstMap) and all_conflict_free(new_mappings))
-    abstract("base_mappings[0].new_merged_map(case_l).new_merged_map", raises=None, label="merged_left",
+    abstract("base_mappings[0].new_merged_map(use_previous).new_merged_map", raises=None, label="merged_left",
              ensures=[exact_instance(result, AstMap), fresh(result), is_list(result.conflict_keys), fresh(result.conflict_keys)])
     abstract("base_mappings[0].new_merged_map", raises=None, label="merged_base",
              ensures=[exact_instance(result, AstMap), fresh(result), is_list(result.conflict_keys), fresh(result.conflict_keys)])
